@@ -164,36 +164,84 @@ def _coretx_done(ctx, name, valid, tests, cases, res):
     ctx.extra["core_tx_inputs"] = ctx.extra.get("core_tx_inputs", 0) + n_inputs
 
 
-def _enum_replay(ctx, cfgname, module="MC_ScriptEnum"):
-    r = ctx.tlc(module, cfgname, timeout=3000)
-    cfgs = {c["id"]: c for c in r.by_kind("cfg")}
-    trs = r.by_kind("tr")
-    if not trs:
-        raise MachineryError("%s exported no transitions" % cfgname)
-
-    cases = []
+def _enum_chunk(args):
+    """replay a chunk of MC_ScriptEnum transitions; returns (n, per-op counts, distinct classes, mismatches)"""
+    trs, cfgs = args
+    ops = collections.Counter()
+    classes = set()
+    bad = []
     for t in trs:
         c = cfgs[t["cfg"]]
-        cases.append({"pk": t["script"], "stack": t["init"], "flags": c["flags"], "sv": c["sv"], "ctx": c["ctx"]})
-    got = [g for ch in pmap(_run_eval_chunk, split(cases, 128)) for g in ch]
-    for t, case, g in zip(trs, cases, got):
+        case = {"pk": t["script"], "stack": t["init"], "flags": c["flags"], "sv": c["sv"], "ctx": c["ctx"]}
+        g = S.run_eval(case, z=S.Z_FIXED)
         li = _last_ins(t["script"])
         exp = ("fail",) if (t["status"] == "fail" or t["open"] > 0) else ("ok", [bytes(x) for x in t["stack"]])
         gg = g if g[0] == "ok" else ("fail",)
-        ctx.evaluations += 1
+        ops[_opname(li[0])] += 1
         if t["status"] == "run":
-            ctx._distinct.add(("enum", li[0], t["cfg"], len(t["stack"])))
-        ctx.by_action.setdefault("enum." + _opname(li[0]), [0, 0])[1] += 1
+            classes.add((li[0], t["cfg"], len(t["stack"])))
         if gg != exp:
             how = "stack" if (gg[0] == "ok" and exp[0] == "ok") else gg[0]
-            ctx.fail("C03|eval|%s|sv=%s|minimal=%s|exp=%s|got=%s" % (
+            bad.append(("C03|eval|%s|sv=%s|minimal=%s|exp=%s|got=%s" % (
                 _opname(li[0]), case["sv"], "MINIMALDATA" in case["flags"], exp[0], how),
                 "script %s flags %s: consensus %s %s, pycoin %s" % (bytes(t["script"]).hex(), case["flags"], t["status"],
                                                                      t["err"] or t["stack"], g),
-                {"case": case, "spec": t, "pycoin": g})
-    ctx.replayed += len(trs)
-    ctx.sample({"enum_transition": trs[len(trs) // 2]})
-    return len(trs)
+                {"case": case, "spec": t, "pycoin": [g[0], str(g[1])[:300]]}))
+    return len(trs), ops, classes, bad[:50]
+
+
+def _enum_replay(ctx, cfgname, module="MC_ScriptEnum"):
+    """stream TLC's transitions into worker processes (the thorough configurations export > 10^7)"""
+    import multiprocessing as mp
+    from ..par import NPROC
+    pool = mp.get_context("fork").Pool(NPROC)
+    cfgs = {}
+    buf = []
+    pending = []
+    total = [0]
+    sample = []
+
+    def collect(ar):
+        n, ops, classes, bad = ar.get()
+        total[0] += n
+        ctx.evaluations += n
+        for k, v in ops.items():
+            ctx.by_action.setdefault("enum." + k, [0, 0])[1] += v
+        ctx._distinct.update(("enum",) + c for c in classes)
+        for key, what, detail in bad:
+            ctx.fail(key, what, detail)
+
+    def flush():
+        if buf:
+            pending.append(pool.apply_async(_enum_chunk, ((list(buf), dict(cfgs)),)))
+            del buf[:]
+        while len(pending) > 3 * NPROC:
+            collect(pending.pop(0))
+
+    def on(rec):
+        k = rec.get("k")
+        if k == "cfg":
+            cfgs[rec["id"]] = rec
+        elif k == "tr":
+            buf.append(rec)
+            if not sample:
+                sample.append(rec)
+            if len(buf) >= 3000:
+                flush()
+    try:
+        ctx.tlc(module, cfgname, timeout=6000, on_record=on, keep_records=False)
+        flush()
+        for ar in pending:
+            collect(ar)
+    finally:
+        pool.close()
+        pool.join()
+    if not total[0]:
+        raise MachineryError("%s exported no transitions" % cfgname)
+    ctx.replayed += total[0]
+    if sample:
+        ctx.sample({"enum_transition": sample[0]})
+    return total[0]
 
 
 def stage_enum(ctx):
